@@ -173,24 +173,118 @@ def _binds_then_cannot_raise(body) -> bool:
     return ok(list(body), True)
 
 
-def path_summaries(f: FuncInfo, limit: int = 512, body: Optional[List[ast.stmt]] = None, env0: Optional[Dict[str, ast.expr]] = None) -> Optional[List[Path]]:
+def _is_new_function(project, g) -> bool:
+    """a module-level function / method that does not exist in the reference snapshot: an extraction made by a refactoring, looked into rather than treated as a primitive"""
+    try:
+        from .canon import reference_table
+        r = reference_table().get(g.module.relpath)
+    except Exception:
+        return False
+    return r is not None and g.qualname not in r and g.parent is None
+
+
+def path_summaries(f: FuncInfo, limit: int = 512, body: Optional[List[ast.stmt]] = None, env0: Optional[Dict[str, ast.expr]] = None, project=None, depth: int = 0) -> Optional[List[Path]]:
+    """project: when given, a call to a function that is NEW with respect to the reference snapshot (an extracted helper), standing as the whole test of an `if`, the whole
+    right-hand side of an assignment or the whole returned value, is looked into: each of its return paths continues the caller's path with the helper's conditions."""
     out: List[Path] = []
     over = [False]
 
     def sub(e, env):
         return _Subst(env).visit(copy.deepcopy(e)) if e is not None else None
 
+    def add(conds, text, truth):
+        """conds + the literal, or None when the path becomes infeasible (the opposite literal is already on it)"""
+        if (text, not truth) in conds:
+            return None
+        if (text, truth) in conds:
+            return conds
+        return conds + [(text, truth)]
+
     def push(conds, t, truth, env):
+        """the conditions of the path after `t` evaluated to `truth`; None when that cannot happen on this path (a constant test, a contradiction)"""
+        if conds is None:
+            return None
         while isinstance(t, ast.UnaryOp) and isinstance(t.op, ast.Not):
             t, truth = t.operand, not truth
         if isinstance(t, ast.BoolOp) and ((isinstance(t.op, ast.And) and truth) or (isinstance(t.op, ast.Or) and not truth)):
             for v in t.values:
                 conds = push(conds, v, truth, env)
+                if conds is None:
+                    return None
             return conds
         s = sub(t, env)
         while isinstance(s, ast.UnaryOp) and isinstance(s.op, ast.Not):
             s, truth = s.operand, not truth
-        return conds + [(norm_text(s, limit=100000).replace('"', "'"), truth)]
+        if isinstance(s, ast.Constant):
+            return conds if bool(s.value) == truth else None
+        if isinstance(s, ast.BoolOp) and ((isinstance(s.op, ast.And) and truth) or (isinstance(s.op, ast.Or) and not truth)):
+            return push(conds, s, truth, {})
+        return add(conds, norm_text(s, limit=100000).replace('"', "'"), truth)
+
+    def expand(e, env):
+        """[(extra conditions, value)] for a call of a new helper (its return paths, parameters bound to the substituted arguments); None when e is not such a call"""
+        if project is None or depth >= 2 or not isinstance(e, ast.Call):
+            return None
+        try:
+            tg = project.resolve_call(e, f)
+        except Exception:
+            return None
+        if len(tg) != 1 or tg[0] is f or not _is_new_function(project, tg[0]) or tg[0].vararg or tg[0].kwarg:
+            return None
+        g = tg[0]
+        if any(isinstance(a, ast.Starred) for a in e.args) or any(k.arg is None for k in e.keywords):
+            return None
+        b, _complete = project.bind(e, g)
+        e0: Dict[str, ast.expr] = {}
+        for prm in g.call_params + g.kwonly:
+            if prm in b:
+                e0[prm] = sub(b[prm], env)
+            elif prm in g.defaults and g.defaults[prm] is not None:
+                e0[prm] = copy.deepcopy(g.defaults[prm])
+            else:
+                return None
+        if g.cls is not None and not g.is_staticmethod and g.params:
+            if not isinstance(e.func, ast.Attribute):
+                return None
+            e0[g.params[0]] = sub(e.func.value, env)
+        ps = path_summaries(g, limit=64, env0=e0, project=project, depth=depth + 1)
+        if ps is None or any(q.kind != "return" for q in ps):
+            return None
+        return [(q.conds, q.value) for q in ps]
+
+    def variants(e, conds, env):
+        """[(conditions, substituted value)]: a conditional expression inside the value splits the path; a new helper called as the whole value contributes its return paths"""
+        if e is None:
+            return [(conds, None)]
+        ex = expand(e, env)
+        if ex is not None:
+            res = []
+            for c2, v in ex:
+                cc = conds
+                for t_, tr_ in c2:
+                    cc = add(cc, t_, tr_) if cc is not None else None
+                if cc is not None:
+                    res.append((cc, v))
+            return res
+        first = None
+        stack = [e]
+        while stack and first is None:
+            n = stack.pop(0)
+            if isinstance(n, ast.IfExp):
+                first = n
+                break
+            if isinstance(n, (ast.Lambda, ast.ListComp, ast.SetComp, ast.DictComp, ast.GeneratorExp)):
+                continue
+            stack.extend(ast.iter_child_nodes(n))
+        if first is None:
+            return [(conds, sub(e, env))]
+        res = []
+        for truth, arm in ((True, first.body), (False, first.orelse)):
+            cc = push(conds, first.test, truth, env)
+            if cc is None:
+                continue
+            res.extend(variants(_replace(e, first, arm), cc, env))
+        return res
 
     def assign(t, v, env, eff):
         """v is already substituted"""
@@ -223,15 +317,18 @@ def path_summaries(f: FuncInfo, limit: int = 512, body: Optional[List[ast.stmt]]
             return
         st, rest = stmts[0], list(stmts[1:])
         if isinstance(st, ast.Return):
-            out.append(Path(conds, "return", sub(st.value, env) if st.value is not None else ast.Constant(value=None), eff, env, st))
+            if st.value is None:
+                out.append(Path(conds, "return", ast.Constant(value=None), eff, env, st))
+            for c2, v in (variants(st.value, conds, env) if st.value is not None else ()):
+                out.append(Path(c2, "return", v, eff, env, st))
         elif isinstance(st, ast.Raise):
             out.append(Path(conds, "raise", sub(st.exc, env) if st.exc is not None else None, eff, env, st))
         elif isinstance(st, ast.Assign):
-            env, eff = dict(env), list(eff)
-            v = sub(st.value, env)
-            for t in st.targets:
-                assign(t, v, env, eff)
-            run(rest, conds, env, eff, k)
+            for c2, v in variants(st.value, conds, env):
+                env2, eff2 = dict(env), list(eff)
+                for t in st.targets:
+                    assign(t, copy.deepcopy(v), env2, eff2)
+                run(rest, c2, env2, eff2, k)
         elif isinstance(st, ast.AnnAssign):
             env, eff = dict(env), list(eff)
             if st.value is not None:
@@ -252,8 +349,27 @@ def path_summaries(f: FuncInfo, limit: int = 512, body: Optional[List[ast.stmt]]
                 eff.append(sub(v, env))
             run(rest, conds, env, eff, k)
         elif isinstance(st, ast.If):
-            run(st.body, push(conds, st.test, True, env), env, eff, [rest] + k)
-            run(st.orelse, push(conds, st.test, False, env), env, eff, [rest] + k)
+            t, neg = st.test, False
+            while isinstance(t, ast.UnaryOp) and isinstance(t.op, ast.Not):
+                t, neg = t.operand, not neg
+            ex = expand(t, env)
+            if ex is not None:
+                # the test is a call of a new helper: one continuation per return path of the helper
+                for c2, v in ex:
+                    cc = conds
+                    for t_, tr_ in c2:
+                        cc = add(cc, t_, tr_) if cc is not None else None
+                    if cc is None:
+                        continue
+                    for truth, arm in ((True, st.body), (False, st.orelse)):
+                        c3 = push(cc, v, truth != neg, {})
+                        if c3 is not None:
+                            run(arm, c3, env, eff, [rest] + k)
+            else:
+                for truth, arm in ((True, st.body), (False, st.orelse)):
+                    c2 = push(conds, st.test, truth, env)
+                    if c2 is not None:
+                        run(arm, c2, env, eff, [rest] + k)
         elif isinstance(st, ast.Try):
             run(list(st.body) + list(st.orelse), conds, env, eff, [list(st.finalbody) + rest] + k)
             for h in st.handlers:
@@ -293,6 +409,23 @@ def path_summaries(f: FuncInfo, limit: int = 512, body: Optional[List[ast.stmt]]
             run(rest, conds, env, eff, k)
     run(list(body if body is not None else f.node.body), [], dict(env0 or {}), [], [])
     return None if over[0] else out
+
+
+def _replace(tree, target, repl):
+    """a deep copy of tree in which the node `target` (by identity) is replaced by a copy of `repl`"""
+    if tree is target:
+        return copy.deepcopy(repl)
+    if isinstance(tree, ast.AST):
+        new = type(tree)()
+        for k, v in ast.iter_fields(tree):
+            setattr(new, k, _replace(v, target, repl))
+        for a in ("lineno", "col_offset", "end_lineno", "end_col_offset"):
+            if hasattr(tree, a):
+                setattr(new, a, getattr(tree, a))
+        return new
+    if isinstance(tree, list):
+        return [_replace(x, target, repl) for x in tree]
+    return tree
 
 
 def _as_load(t):
